@@ -146,8 +146,8 @@ func runDriver(c *vf.Check, dir string, bin string, env []string, jobs any, n in
 		if ee, ok := werr.(*exec.ExitError); ok && ee.ExitCode() == 7 {
 			from = last + 1
 			timeoutRounds++
-			if timeoutRounds >= 3 {
-				// ~100 jobs hang: every one of them is a reported violation already; the remaining jobs are not run
+			if timeoutRounds >= 1 {
+				// more than 32 jobs hang: every one of them is a reported violation already; the remaining jobs are not run
 				for i := from; i < n; i++ {
 					if res[i].Status == "" {
 						res[i] = jobResult{Status: "notrun"}
